@@ -171,8 +171,8 @@ pub fn worker() {
                 }));
                 match r {
                     Ok(res) => {
-                        let (c, e, t) = map.summary();
-                        format!("{}/{},{},{}", res, c, e, t)
+                        let (c, e, t, d) = map.summary();
+                        format!("{}/{},{},{},{}", res, c, e, t, d)
                     }
                     Err(_) => {
                         dead = true;
